@@ -1712,7 +1712,11 @@ def do_conf_str_meson(src: str, data: T.List[str], confdata: 'ConfigurationData'
     for line in data:
         if line.lstrip().startswith(search_token):
             confdata_useless = False
+            eol = line[len(line.rstrip('\r\n')):]
             line = do_define_meson(regex, line, confdata, subproject)
+            if eol:
+                # keep the line ending of the template (the renderer ends its line with '\n')
+                line = line[:-1] + eol
         else:
             if re.search(r'#\s*cmakedefine', line):
                 raise MesonException(f'Format error in {src}: saw "{line.strip()}" when format set to "meson"')
@@ -1745,7 +1749,11 @@ def do_conf_str_cmake(src: str, data: T.List[str], confdata: 'ConfigurationData'
                 from ..interpreterbase.decorators import FeatureNew
                 FeatureNew.single_use('whitespace between `#` and `cmakedefine`', '1.9.0', subproject)
             confdata_useless = False
+            eol = line[len(line.rstrip('\r\n')):]
             line = do_define_cmake(line, confdata, at_only, subproject)
+            if eol:
+                # keep the line ending of the template (the renderer ends its line with '\n')
+                line = line[:-1] + eol
         else:
             if '#mesondefine' in line:
                 raise MesonException(f'Format error in {src}: saw "{line.strip()}" when format set to "{variable_format}"')
